@@ -10,6 +10,7 @@ package service
 // down exactly once, last registered first, whether or not earlier ones
 // failed, and the status is success exactly when every call returned nil.
 func (*SignalHandler).shutdown
+  loops 1
   requires h != nil && h.logger != nil
   requires services_set: forall i in 0..len(h.services): h.services[i] != nil
   may_panic
@@ -46,6 +47,7 @@ func (*SignalHandler).Add
 // returned.  A panic raised by a service is recovered by the deferred
 // handler: the named result must not read "success" at that moment.
 func (*SignalHandler).Handle
+  loops 1
   requires h != nil && h.logger != nil && ctx != nil
   requires services_set: forall i in 0..len(h.services): h.services[i] != nil
   panics may: when the signal channel is closed (never done by this package)
@@ -94,6 +96,7 @@ func (*RefreshWorker).Shutdown
 
 // refreshInALoop: every event is explained by the one before it.
 func (*RefreshWorker).refreshInALoop
+  loops 1
   requires workerOK(w)
   loop 0
     invariant starts_with_schedule: events() >= 2 && evis(0, "github.com/AdguardTeam/golibs/timeutil.Clock.Now") && evis(1, "github.com/AdguardTeam/golibs/timeutil.Schedule.UntilNext")
